@@ -10,6 +10,7 @@ CONTRACTS: dict[str, "Contract"] = {}
 ABSTRACT: dict[str, tuple[list[str], str]] = {}
 AXIOMS: list["Axiom"] = []
 LEMMAS: dict[str, "Lemma"] = {}
+INVARIANTS: dict[str, list[str]] = {}  # class -> clauses over `self` (assumed for values read, proved for new objects)
 SPEC_FILES: list[str] = []
 
 
@@ -75,6 +76,10 @@ class Lemma:
 
 def cls(name, file, fields, mutable=(), bases=()):
     CLASSES[name] = ClassInfo(name, file, dict(fields), set(mutable), list(bases))
+
+
+def invariant(cname, *clauses):
+    INVARIANTS.setdefault(cname, []).extend(clauses)
 
 
 def abstract(name, params, ret):
@@ -149,6 +154,7 @@ def reset():
     AXIOMS.clear()
     LEMMAS.clear()
     SPEC_FILES.clear()
+    INVARIANTS.clear()
 
 
 def _parse_spec(s: str) -> ast.expr:
